@@ -11,19 +11,25 @@ echo
 echo "Each change was written by an independent sub-agent from the property text alone, confirmed in a scratch worktree"
 echo "(suite passes, its demonstration fails with the change and passes without), applied to a scratch worktree of /repo, checked there (VERIF_REPO), and removed."
 echo
-echo "| seeded change | written for | check run | exit | violation classes reported |"
-echo "|---|---|---|---|---|"
+echo "| seeded change | written for | check run | tier | exit | violation classes reported |"
+echo "|---|---|---|---|---|---|"
 for d in seeded/*/; do
   n=$(basename $d)
   [ -f $d/patch.diff ] || continue
   prop=$(python3 -c "import json;m=json.load(open('$d/meta.json'));print(m.get('check',m['property']))")
   own=$(python3 -c "import json;m=json.load(open('$d/meta.json'));print(m['property'])")
   W=/tmp/sweep.$$; git -C /repo worktree remove --force $W >/dev/null 2>&1; git -C /repo worktree add -q --detach $W HEAD
-  if ! git -C $W apply /verif/$d/patch.diff 2>/dev/null; then echo "| $n | $own | $prop | patch does not apply | |"; git -C /repo worktree remove --force $W; continue; fi
+  if ! git -C $W apply /verif/$d/patch.diff 2>/dev/null; then echo "| $n | $own | $prop | - | patch does not apply | |"; git -C /repo worktree remove --force $W; continue; fi
   o=$(VERIF_OUT=/tmp/expout VERIF_REPO=$W VERIF_MINIMISE=2s timeout 1500 $snap/check $prop quick 2>&1); rc=$?
+  tier=quick
+  if [ $rc = 0 ]; then
+    # not met in the quick tier's 4000 runs: give the thorough tier two minutes (other seed)
+    o=$(VERIF_SEED=7 VERIF_BUDGET=120s VERIF_OUT=/tmp/expout VERIF_REPO=$W VERIF_MINIMISE=2s timeout 1500 $snap/check $prop thorough 2>&1); rc=$?
+    tier="thorough (120 s)"
+  fi
   git -C /repo worktree remove --force $W >/dev/null 2>&1
   cls=$(echo "$o" | grep "^  class=" | sed 's/^  class=\([^ ]*\).*/\1/' | sort -u | tr '\n' ' ')
-  echo "| $n | $own | $prop | $rc | $cls |"
+  echo "| $n | $own | $prop | $tier | $rc | $cls |"
 done
 } > $out.tmp
 mv $out.tmp $out
